@@ -159,4 +159,24 @@ CHECKS["C16"] = {
     ],
 }
 
+CHECKS["C01"] = {
+    "pkg": "./checks/c01",
+    "level": "exploration",
+    "rule": "generated chain histories on real nodes: world with 1..3 deputies and 6 funded users; 1..5 blocks, each with 0..10 candidate transactions from the transaction grammar (transfers to EOAs / contracts / self / "
+            "fresh / special addresses with amounts around vote boundaries, contract creations and calls with grammar bytecode, votes, candidate register / top-up / modify / unregister, asset create / issue / replenish / modify / transfer, "
+            "modify-signers, gas-payer transactions, boxes of 1..4 sub transactions, and decoys the miner must discard: foreign signature, overspend, no gas money, gas below intrinsic, unsigned, vote for a non-candidate, box with a failing sub); "
+            "miner = the deputy in turn or a later slot. Per block: the assembly is run 3x on the same parent (identical hash), once more with only the packaged transactions (metamorphic: discarded candidates leave no trace), "
+            "then stored; a validator inserts the RLP bytes (must accept) and is restarted at a drawn point; full state dump (all addresses and keys named in any change log, roots, version records, raw code hash) equal on both. "
+            "At the end a fresh node inserts the whole chain and must accept every block and end in the same state. non-trivial = a block with >= 1 packaged and >= 1 discarded candidate; distinct by history digest.",
+    "level_text": "Differential execution of generated blocks on independently built nodes (miner path vs validator path vs late joiner vs restarted node) plus a metamorphic relation on the candidate list; "
+                  "hundreds to thousands of multi-block histories per run. Exploration bounded by history length and the grammar.",
+    "level_note": "Trusted: the harness-built header (PrepareHeader minus the wall clock) and the exported BlockAssembler.MineBlock as the honest miner; times anchored at a fixed past epoch so the validator's only clock test is constant-true; "
+                  "several simulated nodes share one process (self node key and signature cache are reset on every switch).",
+    "technique": "rapid-generated histories with differential (miner/validator/late joiner) and metamorphic oracles",
+    "assumptions": ["an honest miner is PrepareHeader + BlockAssembler.MineBlock + saveNewBlock", "map iteration order is sampled by repeating the assembly, not controlled"],
+    "units": [
+        {"name": "determinism", "test": "TestC01Determinism", "quick": {"checks": 220, "shards": 4, "timeout": 900}, "thorough": {"checks": 3000, "shards": 16, "timeout": 3400}},
+    ],
+}
+
 NOT_APPLICABLE = {}
